@@ -4,6 +4,7 @@ import (
 	"encoding/json"
 	"flag"
 	"fmt"
+	"golang.org/x/tools/go/ssa"
 	"os"
 	"path/filepath"
 	"sort"
@@ -114,6 +115,7 @@ func main() {
 		return
 	}
 
+	theWorld = w
 	// select contracts
 	var sels, unverified []string
 	for s, c := range w.cons {
@@ -139,6 +141,83 @@ func main() {
 	var results []*FuncResult
 	for _, s := range sels {
 		results = append(results, w.verifyFunc(s, w.cons[s]))
+	}
+	// zero-annotation safety sweep (C01): functions without a contract are verified against the
+	// empty contract - arbitrary well-typed arguments, no precondition - for the safety
+	// obligations only (nil, bounds, assertions, division, comparisons, make, explicit panics
+	// other than the typed panic values that Evaluate turns into errors). `govc sweep` tries
+	// every uncontracted function and prints those that verify; /verif/contracts/sweep.list is
+	// the committed list that `check C01` re-verifies on every run.
+	sweepCon := func(sel string) *Contract {
+		return &Contract{Sel: sel, File: "sweep", Props: []string{"C01"}, Loops: map[int]*LoopSpec{}, HasPanics: true,
+			Panics: []string{"values.TypeError", "expressions.InterpreterError", "expressions.UndefinedFilter", "expressions.FilterError"}}
+	}
+	if cmd == "sweep" {
+		without, _ := w.uncontracted()
+		var res []*FuncResult
+		for _, sel := range without {
+			if w.fns[sel] == nil || (*only != "" && !strings.Contains(sel, *only)) {
+				continue
+			}
+			tf := time.Now()
+			r := w.verifyFunc(sel, sweepCon(sel))
+			fmt.Fprintf(os.Stderr, "sweep: %s: %d obligations, %d paths, %.1fs\n", sel, len(r.Obs), r.Paths, time.Since(tf).Seconds())
+			res = append(res, r)
+		}
+		var all []*Obligation
+		for _, r := range res {
+			all = append(all, r.Obs...)
+		}
+		outDir := filepath.Join(*verif, "out", "smt", "sweep")
+		os.RemoveAll(outDir)
+		discharge(all, SolverCfg{Timeout: 10 * time.Second, OutDir: outDir, Parallel: 32})
+		for _, r := range res {
+			ok := len(r.SpecErrors) == 0 && len(r.Unsupported) == 0
+			n := 0
+			var bad []string
+			for _, ob := range r.Obs {
+				if ob.Cover {
+					continue
+				}
+				n++
+				if ob.Status != "unsat" {
+					ok = false
+					bad = append(bad, ob.Name)
+				}
+			}
+			if ok {
+				fmt.Printf("PROVED %s (%d obligations)\n", r.Sel, n)
+			} else {
+				why := strings.Join(bad, ", ")
+				if len(r.Unsupported) > 0 {
+					why += " unsupported: " + strings.Join(r.Unsupported, "; ")
+				}
+				if len(r.SpecErrors) > 0 {
+					why += " spec: " + strings.Join(r.SpecErrors, "; ")
+				}
+				fmt.Printf("OPEN   %s (%d obligations): %s\n", r.Sel, n, why)
+			}
+		}
+		return
+	}
+	if *prop == "C01" && *only == "" {
+		if data, err := os.ReadFile(filepath.Join(*verif, "contracts", "sweep.list")); err == nil {
+			for _, line := range strings.Split(string(data), "\n") {
+				sel := strings.TrimSpace(line)
+				if sel == "" || strings.HasPrefix(sel, "#") {
+					continue
+				}
+				if w.cons[sel] != nil {
+					continue // has a real contract now
+				}
+				if w.fns[sel] == nil {
+					sweepGone = append(sweepGone, sel)
+					continue
+				}
+				results = append(results, w.verifyFunc(sel, sweepCon(sel)))
+				sweepCount++
+			}
+		}
 	}
 	for _, l := range w.lemmas {
 		if *only != "" && "lemma "+l.Name != *only {
@@ -228,6 +307,10 @@ func failHard(verif, prop, tier string, seed int, why string, t0 time.Time) {
 	fmt.Printf("VIOLATION property=%s replay=%s no-failing-input-found\n", prop, path)
 	os.Exit(1)
 }
+
+var theWorld *World
+var sweepGone []string
+var sweepCount int
 
 func report(verif, prop, tier string, seed int, results []*FuncResult, obs []*Obligation, loadSecs, genSecs float64, to time.Duration, t0 time.Time) {
 	known := loadKnown(filepath.Join(verif, "known_findings.json"))
@@ -429,6 +512,15 @@ func report(verif, prop, tier string, seed int, results []*FuncResult, obs []*Ob
 		"functions_under_contract": funcs, "samples": samples, "known_findings": knownLines,
 		"explanation": "every obligation is generated from /repo's current SSA against the //@ contracts in zz_contracts_verif.go; discharged = solver answered unsat for the negated goal",
 	}
+	if prop == "C01" {
+		// the sweep: which hand-written functions of /repo are NOT under any contract
+		without, generated := theWorld.uncontracted()
+		cov["functions_without_contract"] = without
+		cov["generated_functions_outside_contracts"] = generated
+		cov["zero_annotation_sweep"] = map[string]any{"functions_verified_against_the_empty_contract": sweepCount, "listed_but_no_longer_present": sweepGone,
+			"meaning": "functions of /verif/contracts/sweep.list have no contract; they are verified for arbitrary well-typed arguments with no precondition, safety obligations only"}
+		as = append(as, fmt.Sprintf("%d hand-written functions of /repo have no contract (listed in coverage.functions_without_contract): their panic-freedom is NOT decided; %d functions of generated files (expressions/scanner.go, expressions/y.go) are outside the contracts", len(without), len(generated)))
+	}
 	if bounded := loadBoundedNote(verif, prop); bounded != nil {
 		cov["bounded"] = bounded
 	}
@@ -479,4 +571,59 @@ func loadBoundedNote(verif, prop string) any {
 		return nil
 	}
 	return v
+}
+
+// uncontracted lists the hand-written functions of /repo that no contract selector resolves
+// to (and that are not local closures of a function under contract, which are verified inline
+// with it), and separately the functions of generated files.
+func (w *World) uncontracted() (without, generated []string) {
+	under := map[*ssa.Function]bool{}
+	for sel, c := range w.cons {
+		if c.External {
+			continue
+		}
+		if fn := w.fns[sel]; fn != nil {
+			under[fn] = true
+		}
+	}
+	for _, fn := range w.allFns {
+		if !w.inRepo(fn) || len(fn.Blocks) == 0 || fn.Synthetic != "" {
+			continue
+		}
+		if under[fn] {
+			continue
+		}
+		// a closure nested in a function under contract without a contract of its own is
+		// executed inline where it is called
+		inl := false
+		for p := fn.Parent(); p != nil; p = p.Parent() {
+			if under[p] {
+				inl = true
+			}
+		}
+		if inl {
+			continue
+		}
+		name := shortName(fn.String())
+		file := ""
+		if fn.Pos().IsValid() {
+			file = w.prog.Fset.Position(fn.Pos()).Filename
+		} else if fn.Parent() != nil && fn.Parent().Pos().IsValid() {
+			file = w.prog.Fset.Position(fn.Parent().Pos()).Filename
+		}
+		if strings.HasSuffix(file, "_test.go") {
+			continue
+		}
+		isGen := strings.HasPrefix(name, "(*expressions.lexer).") || strings.HasSuffix(file, "yaccpar") ||
+			(strings.Contains(name, "expressions.yy") && !strings.Contains(name, "$")) ||
+			((strings.HasSuffix(file, "/expressions/y.go") || strings.HasSuffix(file, "/expressions/scanner.go")) && !strings.Contains(name, "$"))
+		if isGen {
+			generated = append(generated, name)
+			continue
+		}
+		without = append(without, name)
+	}
+	sort.Strings(without)
+	sort.Strings(generated)
+	return
 }
